@@ -77,6 +77,14 @@ CLAIMED = {
    text="A passive wire monitor (independent header decoder fed from the network tap, plus session-table snapshots) observes every datagram of two traffic families under 10-50 % loss, duplication and reordering: CASE/PASE handshakes with forced retransmission of each handshake message followed by secured request/response chatter, and the full administrative traffic of the commissioning world (fail-safe, credentials, ACL/label writes, CASE rounds, restarts). Rules: the same (sender, session id, message counter) never carries two different ciphertexts (nonce reuse); a retransmission of an acknowledgement-requesting unsecured message is byte-identical (or differs only by a rebuilt piggy-backed ack, counted); per-session send counters read from snapshots never decrease and local session / exchange ids are unique while live. Floors on secured datagrams, byte-identical retransmissions, forced handshake retransmissions and snapshots.",
    note="Passive: judges only what these workloads put on the wire. Counter order on the wire is not judged (reordering is the network's right). Group sessions are covered by C12 (durable counter) and C03 (group datagrams), not here. Trusted: tap, independent header decoder, snapshot hook.",
    tech="runtime monitoring: passive wire-tap monitor (nonce-uniqueness / retransmission-identity) plus session-snapshot monotonicity monitor under lossy schedules", ref="DESIGN.md §3 C15"),
+ "C10": dict(cat="exploration",
+   text="Two real nodes with three mirrored secure sessions (two disturbed, one probe session), 16 acceptor slots each and a keyed hostile peer. Disturbance phase: handlers that accept after 0-5 s or never, handlers and clients dropped by cancellation at every await point (n = 0..14), 8 handler behaviours, exchange-table overflow, session-table pressure, CloseSession in flight, loss/dup/reorder, and injected secured/unsecured/group datagrams over {exchange id: fresh, live in either role, stale, live on another session} x {I, R, ack field} x {data, stand-alone ack, status report, CloseSession, Sigma1, PBKDFParamRequest, IM, MsgCounterSync} x {live, expired session}. Oracle: every payload is tagged and may surface only on the handle of its own session/exchange id/role (R1); no exchange appears after a non-initiator message, a stand-alone ack or on an expired session (R2, table sampled after every poll); after faults stop, probes in both directions on an untouched session are answered within 30 s virtual (R3); RX slot free, no exchange accept-pending or dropped, and no datagrams during the last 30 s of a 100 s quiet tail (R4-R6); run terminates (R7); an acknowledged message reaches the owner waiting in recv (R8); no exchange stays unclaimed beyond 3 s (R9). Both the default and the 3x3 small-tables build are run.",
+   note="'Never wedges' is decided as bounded progress after faults stop on the schedules produced. Duplicates surfacing twice are counted, not judged (C09). I-flagged status reports / unsecured initiator data opening an exchange are not judged. Observed, not judged: a CloseSession sent on a fresh exchange id is dropped by a receiving rs-matter node; RX slot held for a whole MRP ladder by an owner that is sending.",
+   tech="runtime monitoring: tagged-payload routing oracle, exchange-table sampling, bounded-progress probes and wire-quiescence monitor under cancellation / late-accept / hostile-injection workloads", ref="DESIGN.md §3 C10"),
+ "C20": dict(cat="exploration",
+   text="A real responder node with a bounded handler pool (every secure-channel handler under cancellation at a chosen await point) is attacked by 1-3 real initiators plus spoofed sources making 1-40 PASE/CASE attempts each that stop after message k for every k, send one of 8 kinds of garbage at message k, are cancelled, retry concurrently, or complete; families: hostile, table-full (table pre-filled, p sessions pinned by live exchanges owned by the harness), exchange flood, mDNS resolve/browse rendezvous callers cancelled or timed out at every await against four responder stand-ins, and 20 commissioning rounds (complete / abandoned four ways) on the full device. After traffic stops and 70-150 s of virtual time: no reserved session, no exchange slot in use, RX/TX and rendezvous slots free on every node, legitimate CASE and PASE probes succeed; a pinned session is never removed; after faults stop a probe succeeds whenever an idle session exists; PASE sessions do not survive CommissioningComplete. Run on the default (16x5) and the small-tables (3x3) build.",
+   note="Restated as bounded: state at quiescence after every time-out the code defines. Known finding (listed): with exactly one idle session and all others busy a handshake cannot succeed (needs two table entries). Busy vs silent answer with a table full of busy sessions is counted, not judged. Eviction of a session with a live exchange is judged only where the harness owns the exchange. 64x16 configuration not built.",
+   tech="runtime monitoring: session/exchange/rendezvous-slot invariants at quiescence, eviction monitor on pinned sessions and probe handshakes after hostile handshake sequences; two table-size builds", ref="DESIGN.md §3 C20"),
 }
 
 NOT_YET = "check not built yet in this framework (work in progress; planned, see DESIGN.md §3)"
